@@ -213,7 +213,9 @@ def validate_trace(module, cfg, trace_path, n_events, max_violations=12, timeout
     start = 1
     bad = []
     inv_hit = {}
+    known_hits = {}
     validate_trace.invariants = inv_hit
+    validate_trace.known_hits = known_hits
     states = 0
     trans = 0
     matched_total = 0
@@ -227,6 +229,9 @@ def validate_trace(module, cfg, trace_path, n_events, max_violations=12, timeout
             mm = re.match(r'<<"MATCHED", (-?\d+), (\d+)>>', p)
             if mm:
                 m = (int(mm.group(1)), int(mm.group(2)))
+            mk = re.match(r'<<"KNOWN", "(\w+)", (\d+)>>', p)
+            if mk:
+                known_hits.setdefault(mk.group(1), set()).add(int(mk.group(2)))
         if m is None and r.violated and r.violated not in ("TraceAccepted", "assumption"):
             # an invariant of the specification is false in a state of the trace: the event that
             # led into that state is the rejected one (the state's l is one past it)
